@@ -486,6 +486,8 @@ class sptensor:
 
         # Check for the case where we accumulate over *all* dimensions
         if remdims.size == 0:
+            if self.nnz == 0:
+                return 0.0
             result = function_handle(self.vals.transpose()[0])
             if isinstance(result, np.generic):
                 result = result.item()
